@@ -6,6 +6,7 @@ pub mod c03;
 pub mod c04;
 pub mod c05;
 pub mod c06;
+pub mod c07;
 pub mod c08;
 pub mod c09;
 pub mod c10;
@@ -16,6 +17,7 @@ pub mod c14;
 pub mod c15;
 pub mod c16;
 pub mod c17;
+pub mod c18;
 pub mod c19;
 pub mod c20;
 pub mod cli;
@@ -47,6 +49,7 @@ pub fn plan(ctx: &Ctx) -> Option<Plan> {
         "C04" => Some(c04::plan(ctx)),
         "C05" => Some(c05::plan(ctx)),
         "C06" => Some(c06::plan(ctx)),
+        "C07" => Some(c07::plan(ctx)),
         "C08" => Some(c08::plan(ctx)),
         "C09" => Some(c09::plan(ctx)),
         "C10" => Some(c10::plan(ctx)),
@@ -57,6 +60,7 @@ pub fn plan(ctx: &Ctx) -> Option<Plan> {
         "C15" => Some(c15::plan(ctx)),
         "C16" => Some(c16::plan(ctx)),
         "C17" => Some(c17::plan(ctx)),
+        "C18" => Some(c18::plan(ctx)),
         "C19" => Some(c19::plan(ctx)),
         "C20" => Some(c20::plan(ctx)),
         _ => None,
